@@ -555,7 +555,9 @@ class AckMonitor(Monitor):
                     path_ok = ep.conn._network_paths[0].is_validated
                 except Exception:
                     pass
-                if v.ptype != "1rtt" or not ep.handshake_complete or closing or not path_ok or from_addr not in (ep.conn._network_paths[0].addr,):
+                # (a 0-RTT packet that arrives *after* the handshake completed is an application-space packet like any
+                # other: if it carries the highest number so far it is owed a timely acknowledgement)
+                if v.ptype not in ("1rtt", "0rtt") or not ep.handshake_complete or closing or not path_ok or from_addr not in (ep.conn._network_paths[0].addr,):
                     self.exempt += 1
                     continue
                 self.obligations.append({"ep": ep.name, "space": sp, "pn": v.pn, "t": t, "deadline": t + 0.025 + self.slack, "met": False})
